@@ -63,6 +63,19 @@ CLAIMED = {
         note="The Lehmann representation itself is taken from the documentation, not re-derived; numerical accuracy and Eigen's kernels are trusted. Necessary conditions only.",
         technique="expression skeleton -> sympy normal form with atoms resolved to program entities (index-space typing) + CFG branch-fact dataflow",
         ref="DESIGN.md §3 C01"),
+    "C14": dict(
+        text="Static formula conformance for the bosonic Lehmann sum: Residue == a_oi*b_io*(w_outer(o)-w_inner(i)), Pole == E_inner(i)-E_outer(o) typed by index space; poles with |Pole| < ReduceResonanceTolerance are "
+             "collected as ZeroPoleWeight += a*b*w_outer(o) (complementary split); Term(z) == -R/(z-P); both tau branches equal R e^{-tau P}/(1-e^{-beta P}) with non-positive exp arguments; part value == Terms(z) + [|z|<eps] Z0*beta, "
+             "of_tau == Terms + Z0; the total sums all parts and subtracts <A><B>*beta only under the flag and only at W=0 (in tau: <A><B>); bosonic grid 2n*i*pi/beta; stripe binding and walks as for G; the three subtractDisconnected overloads agree.",
+        note="The Lehmann representation is taken from the documentation; the threshold semantics for nearly degenerate levels (runtime comparison) and numerical accuracy are not decided.",
+        technique="expression skeleton -> sympy normal form with index-space typed atoms + sign-domain evaluation of exp arguments + CFG branch facts",
+        ref="DESIGN.md §3 C14"),
+    "C11": dict(
+        text="Claimed at the level of two structural rules: (R1) GreensFunctionPart::Term in imaginary time — both branches are algebraically equal to -R e^{-tau P}/(1+e^{-beta P}), the inverse transform of R/(z-P), and every exp argument "
+             "is <= 0 in the branch where it is used for 0<=tau<=beta (the overflow-avoidance mechanism); (R2) part and total values are plain sums over all terms / parts at the same argument, and Vanishing is true initially and cleared iff a part exists.",
+        note="Conjugation symmetry, the 1/z tail, negativity, boundary values and G_ii(beta-) = -<n_i> are value-level consequences of C01 and C09 and are NOT decided here.",
+        technique="sympy normal forms of both branches + sign-domain evaluation under the branch condition; loop-shape and dominance rules",
+        ref="DESIGN.md §3 C11"),
 }
 
 NOT_YET = {}
